@@ -269,7 +269,7 @@ pub fn run(tier: &str) -> Report {
     let thorough = tier == "thorough";
     let table = Table::new(&TableCfg::FULL);
     let mapfile = table.mapfile_text(REGS);
-    let (bound, depth) = if thorough { (4, 2) } else { (3, 2) };
+    let (bound, depth) = if thorough { (5, 2) } else { (4, 2) };
     let mut cases: Vec<(String, bool, bool)> = vec![];
     let mut seen = BTreeSet::new();
     let stats = explore_dfs(bound, if thorough { 4_000_000 } else { 400_000 }, &|ch| {
